@@ -73,11 +73,26 @@ def pollTimed (st : St) (s : State) : St × String :=
     let woken := !s1.needWait || signal s1
     rtCall st s1 .mainStart (fun _ => if woken then "poll=woken" else "poll=timeout")
 
+/-- a blocking `poll_with(Some(t))` during which another thread invokes the driver waker: `Driver::poll` up to its
+wait, then the wake, then the verdict and the rest of `poll` -/
+def pollWoken (st : St) (s : State) : St × String :=
+  match rtUntil .wait 64 { s with rt := .reset } with
+  | none => (st, "model-stuck")
+  | some s1 =>
+    let (st2, r) := wakeCall st s1 .main
+    match st2.s with
+    | none => (st, "model-stuck")
+    | some s2 =>
+      if r != "ok" then (st, "model-stuck") else
+      let woken := !s2.needWait || signal s2
+      rtCall st2 s2 .mainStart (fun _ => if woken then "poll=woken" else "poll=timeout")
+
 def step (st : St) (line : String) : St × String :=
   if line.startsWith "#case" then ({ s := none, nextW := 0 }, line.trimAscii.toString) else
   match words line, st.s with
   | ["new", d, q, iv, _tasks], _ => newRt st d q iv "cap=16"
   | ["new", d, q, iv, _tasks, cap], _ => newRt st d q iv cap
+  | ["new", d, q, iv, _tasks, cap, _cq], _ => newRt st d q iv cap
   | "stress" :: _, _ => (st, "round ok")
   | ["cancelprobe", _], _ => (st, "probe done")
   | ["wake"], some s => wakeCall st s .main
@@ -94,6 +109,13 @@ def step (st : St) (line : String) : St × String :=
     rtCall st { s with rt := .xarm, zero := false } .xwait (fun s' => if s'.zero then "flush=notified" else "flush=idle")
   | ["poll0"], some s => rtCall st { s with rt := .reset } .mainStart (fun _ => "ok")
   | ["pollt", _ms], some s => pollTimed st s
+  | ["pollw", _ms], some s => pollWoken st s
+  | ["pushz", k], some s =>
+    match k.toNat? with
+    | some k => match pushN k s with
+      | some s' => ({ st with s := some s' }, "ok")
+      | none => (st, "model-stuck")
+    | none => (st, "bad-op")
   | ["push", k], some s =>
     match k.toNat? with
     | some k => match pushN k s with
